@@ -571,7 +571,7 @@ def search(ctx, quick):
                                       "assert c.tolist() == [0, 1] and X.min() >= lo - d and X.max() <= hi + d\n")
                 ctx.case(('search', fam, n, rep), None, True)
     # ---------- TruncatedGaussian: user bounds honoured, support, closeness (own optimiser)
-    designed = [('F21-witness', (-2.0, 2.0), 3.0, 0.01, 500, 11), ('F22-witness', (1.5, 5.0), 10.0, 2.0, 5000, 1)]
+    designed = [('F31-witness', (-2.0, 2.0), 3.0, 0.01, 500, 11), ('F32-witness', (1.5, 5.0), 10.0, 2.0, 5000, 1)]
     rand = []
     for n in sizes:
         for rep in range(reps):
@@ -617,11 +617,11 @@ def search(ctx, quick):
             if not (d_true <= eps and d_emp <= 2 * eps):
                 cap = (mx - mn) ** 2
                 if p['scale'] >= cap * (1 - 1e-6) and (mx - mn) < 1:
-                    key = 'F21:truncated-scale-capped-by-squared-range'
+                    key = 'F31:truncated-scale-capped-by-squared-range'
                     why = (f'the optimiser bound scale <= (max-min)^2 = {cap!r} is below the generating scale {sc!r} because the data range {mx - mn!r} is < 1; '
                            f'fitted scale = {p["scale"]!r} sits on the bound')
                 elif (abs(p['a']) <= 1e-6 and a > 0) or (abs(p['b']) <= 1e-6 and b < 0):
-                    key = 'F22:truncated-loc-box-excludes-mode-outside-support'
+                    key = 'F32:truncated-loc-box-excludes-mode-outside-support'
                     why = (f'the optimiser bound loc in [min, max] excludes the generating loc {loc!r} (the mode lies outside the truncation interval, a = {a}, b = {b}); '
                            f'fitted loc = {p["loc"]!r} sits on the bound')
                 else:
